@@ -486,6 +486,13 @@ impl endpoint::Session for ListenerSession {
     }
 
     async fn on_incoming_attach(&mut self, attach: Attach) -> Result<(), Self::Error> {
+        // An attach on a handle that is attached already is a protocol violation: it
+        // must not take the handle of the link that is using it
+        let input_handle: crate::endpoint::InputHandle = attach.handle.clone().into();
+        if self.session.link_by_input_handle.contains_key(&input_handle) {
+            return Err(SessionInnerError::HandleInUse);
+        }
+
         match self.session.link_by_name.get_mut(&attach.name) {
             Some(link) => match link.take() {
                 Some(mut relay) => {
